@@ -37,6 +37,7 @@ type Conn struct {
 	LocalIP   string
 	Remote    refwire.HS
 	Encrypted bool // RC4 in use
+	LocalFast bool // this side set the fast bit
 	ViaMSE    bool
 	raw       net.Conn
 	rw        io.ReadWriter
@@ -48,6 +49,9 @@ type Conn struct {
 	Frames    atomic.Int64
 	BadFrames atomic.Int64 // frames that the strict reference decoder refused
 }
+
+// FastOn: the fast extension is in use only when both sides set the bit (BEP 6).
+func (c *Conn) FastOn() bool { return c.LocalFast && c.Remote.Fast() }
 
 var ErrHandshake = errors.New("refpeer: handshake failed")
 
@@ -63,7 +67,7 @@ func Dial(name, localIP, target string, o HSOpts, log *evlog.Log) (*Conn, error)
 	if err != nil {
 		return nil, err
 	}
-	c := &Conn{Name: name, LocalIP: localIP, raw: raw, rw: raw, Log: log}
+	c := &Conn{Name: name, LocalIP: localIP, raw: raw, rw: raw, Log: log, LocalFast: o.Fast}
 	raw.SetDeadline(time.Now().Add(15 * time.Second))
 	hs := refwire.Handshake(reserved(o), o.InfoHash, o.PeerID)
 	switch o.Crypto {
@@ -148,7 +152,7 @@ func (l *Listener) Accept(o HSOpts, timeout time.Duration) (*Conn, error) {
 	}
 	l.Attempts.Add(1)
 	l.Log.Add(l.Name, "tcp-accept", 0, 0, 0, raw.RemoteAddr().String(), nil)
-	c := &Conn{Name: l.Name, LocalIP: l.IP, raw: raw, rw: raw, Log: l.Log}
+	c := &Conn{Name: l.Name, LocalIP: l.IP, raw: raw, rw: raw, Log: l.Log, LocalFast: o.Fast}
 	raw.SetDeadline(time.Now().Add(15 * time.Second))
 	first := make([]byte, 20)
 	if _, err := io.ReadFull(raw, first); err != nil {
@@ -339,6 +343,9 @@ type SeederCfg struct {
 	// ChokeEvery > 0: choke after every k-th served block, unchoke again after ChokePause
 	ChokeEvery int
 	ChokePause time.Duration
+	// LateServe: on a connection without the fast extension the block that triggers the choke is
+	// sent after the choke frame (it was 'already in the send buffer'), not before it
+	LateServe bool
 	AllowedFast []int
 	// ServeDelay before each block
 	ServeDelay time.Duration
@@ -400,10 +407,10 @@ func RunSeeder(c *Conn, cfg SeederCfg, st *SeederState) {
 	}
 	// announce what we hold
 	switch {
-	case cfg.Announce == "haveall" && c.Remote.Fast() && all:
+	case cfg.Announce == "haveall" && c.FastOn() && all:
 		c.Send(refwire.Msg{ID: refwire.HaveAll})
 	case cfg.Announce == "haves":
-		if c.Remote.Fast() {
+		if c.FastOn() {
 			c.Send(refwire.Msg{ID: refwire.HaveNone})
 		}
 		for i, h := range have {
@@ -509,7 +516,7 @@ func RunSeeder(c *Conn, cfg SeederCfg, st *SeederState) {
 				st.Mu.Lock()
 				delete(st.Outstanding, [3]uint32{m.Index, m.Begin, m.Length})
 				st.Mu.Unlock()
-				if c.Remote.Fast() {
+				if c.FastOn() {
 					c.Send(refwire.Msg{ID: refwire.Reject, Index: m.Index, Begin: m.Begin, Length: m.Length})
 				}
 				continue
@@ -523,7 +530,7 @@ func RunSeeder(c *Conn, cfg SeederCfg, st *SeederState) {
 				continue
 			}
 			if int(m.Index) >= ct.NumPieces || !have[m.Index] {
-				if c.Remote.Fast() {
+				if c.FastOn() {
 					c.Send(refwire.Msg{ID: refwire.Reject, Index: m.Index, Begin: m.Begin, Length: m.Length})
 				}
 				continue
@@ -544,7 +551,7 @@ func RunSeeder(c *Conn, cfg SeederCfg, st *SeederState) {
 			case "drop":
 				continue
 			case "reject":
-				if c.Remote.Fast() {
+				if c.FastOn() {
 					c.Send(refwire.Msg{ID: refwire.Reject, Index: m.Index, Begin: m.Begin, Length: m.Length})
 				}
 				continue
@@ -567,6 +574,14 @@ func RunSeeder(c *Conn, cfg SeederCfg, st *SeederState) {
 				// an extra block nobody asked for, then the real one
 				c.Send(refwire.Msg{ID: refwire.Piece, Index: m.Index, Begin: (m.Begin + 16384) % uint32(len(pc)+1), Data: blk})
 			}
+			late := cfg.LateServe && cfg.ChokeEvery > 0 && (served+1)%cfg.ChokeEvery == 0 && !c.FastOn()
+			if late {
+				st.Mu.Lock()
+				st.Unchoked = false
+				st.Mu.Unlock()
+				c.Send(refwire.Msg{ID: refwire.Choke})
+				time.Sleep(25 * time.Millisecond)
+			}
 			if err := c.Send(out); err != nil {
 				continue
 			}
@@ -581,10 +596,12 @@ func RunSeeder(c *Conn, cfg SeederCfg, st *SeederState) {
 				continue
 			}
 			if cfg.ChokeEvery > 0 && served%cfg.ChokeEvery == 0 {
-				st.Mu.Lock()
-				st.Unchoked = false
-				st.Mu.Unlock()
-				c.Send(refwire.Msg{ID: refwire.Choke})
+				if !late {
+					st.Mu.Lock()
+					st.Unchoked = false
+					st.Mu.Unlock()
+					c.Send(refwire.Msg{ID: refwire.Choke})
+				}
 				st.Mu.Lock()
 				// a choke cancels what is outstanding (no fast extension) / we answer nothing more of it
 				st.Outstanding = map[[3]uint32]bool{}
